@@ -54,15 +54,10 @@ Inductive op :=
 | OpJson (d : domain).
 
 Definition ov (o : option val) : obs := match o with Some v => OV v | None => ONone end.
-Fixpoint ranges_of (sl sr : scaling) (ds : list dspec) : option (list hprange) :=
-  match ds with
-  | [] => Some []
-  | (d, a) :: r =>
-      match range_of_domain eps sl sr d a, ranges_of sl sr r with
-      | Some h, Some hs => Some (h :: hs)
-      | _, _ => None
-      end
-  end.
+(* make_hyperparameter_ranges = the model's [space_ranges] (the function the end-to-end theorems are
+   about); JSON = the model's space-level [cs_json_roundtrip] on {"x": d, "const": 3} *)
+Definition ranges_of (sl sr : scaling) (ds : list dspec) : option (list hprange) :=
+  space_ranges eps sl sr ds.
 Definition run_op (sl sr : scaling) (o : op) : obs :=
   match o with
   | OpSample d r => ov (dom_sample sl sr d r)
@@ -80,7 +75,11 @@ Definition run_op (sl sr : scaling) (o : op) : obs :=
       match ranges_of sl sr ds with
       | Some hs => match space_bounds eps hs fx with Some b => OBnd b | None => ONone end
       | None => ONone end
-  | OpJson d => match json_roundtrip ebase d with Some d' => ODom d' | None => ONone end
+  | OpJson d =>
+      match cs_json_roundtrip ebase [(0%%Z, EDom d); (1%%Z, EConst (VI 3))] with
+      | Some [(_, EDom d'); (_, EConst (VI 3))] => ODom d'
+      | _ => ONone
+      end
   end.
 
 Definition close (scale a b : Q) : bool := Qleb (Qabs (a - b)) (tol * Qmax3 1 scale 0).
@@ -905,7 +904,7 @@ def single_domain_cases(ctx, C, spec, rng, cs, make_hpr, only=None, forced_activ
         ok, back = call(roundtrip)
         pool = Pool()
         dterm = coq_domain(spec, pool)
-        if ok:
+        if ok and back.get("const") == 3 and type(back.get("const")) is int:
             obs = "(ODom %s)" % coq_domain(spec_of_real(back["x"]), pool)
         else:
             obs = "ONone"
